@@ -53,7 +53,7 @@ def gen_ctor(rng, axn, layout=None, p_none=0.4, partial_list=False):
 
 
 def gen_case(rng, i, tier):
-    layout = gen.random_layout(rng, nmin=2, nmax=7 if rng.random() < 0.3 else 5)
+    layout = gen.random_layout(rng, nmin=2, nmax=(13 if rng.random() < 0.15 else 7) if rng.random() < 0.3 else 5)
     axes = layout["axes"]
     axn = [a["name"] for a in axes]
     ctor = gen_ctor(rng, axn)
@@ -90,6 +90,13 @@ def gen_case(rng, i, tier):
             call["to"] = to[opax[0]]
         else:
             call["to"] = dict(to)
+            if rng.random() < 0.25:
+                # a mapping may also name axes this call does not operate on
+                for a in axn:
+                    if a not in call["to"]:
+                        call["to"][a] = rng.choice(list(cm[a]))
+    if rng.random() < 0.3:
+        call["keep_coords"] = rng.random() < 0.5
     b = gen.random_spelling(rng, axn, gen.RULES, p_none=0.35)
     f = gen.random_spelling(rng, axn, FILLS, p_none=0.35)
     if b is not None:
@@ -175,7 +182,7 @@ def effective_to(desc):
 
 
 def call_kwargs(call):
-    return {k: call[k] for k in ("to", "boundary", "fill_value") if k in call}
+    return {k: call[k] for k in ("to", "boundary", "fill_value", "keep_coords") if k in call}
 
 
 def run_case(ctx, desc):
